@@ -29,6 +29,8 @@ func init() {
 			{ID: "C11-R3", Title: "module constructors have a single caller chain", Floor: 3, Run: c11r3},
 			{ID: "C11-R4", Title: "defaults, then deny-list, then overrides", Floor: 3, Run: c11r4},
 			{ID: "C11-R5", Title: "module table is rebuilt for new code", Floor: 2, Run: c11r5},
+			{ID: "C11-R6", Title: "deny-list and override loops visit every entry", Floor: 2, Run: c11r6},
+			{ID: "C11-R7", Title: "top-level globals are not members of a module", Floor: 1, Run: c11r7},
 		},
 	})
 }
